@@ -282,6 +282,8 @@ pub struct World {
     pub first_atomic_ports: Vec<u16>,
     /// when set, every datagram handed to `send_to` is recorded as (from, to, bytes) – the wire sniffer of C12
     pub udp_capture: Option<Vec<(SocketAddr, SocketAddr, Vec<u8>)>>,
+    pub dump_events: bool,
+    pub frozen: bool,
 }
 
 impl World {
@@ -310,6 +312,8 @@ impl World {
             server_config: None,
             first_atomic_ports: Vec::new(),
             udp_capture: None,
+            dump_events: std::env::var_os("VERIF_EVLOG").is_some(),
+            frozen: false,
         }
     }
 
@@ -318,7 +322,14 @@ impl World {
     }
 
     pub fn log(&mut self, kind: u8, a: u64, b: u64) {
+        if self.frozen {
+            // the run is over: what follows is the runtime dropping its tasks, in an order that is tokio's business
+            return;
+        }
         let t = self.now_ns();
+        if self.dump_events {
+            eprintln!("EV {kind} {a} {b} {t}");
+        }
         for v in [kind as u64, a, b, t] {
             self.ev_hash ^= v;
             self.ev_hash = self.ev_hash.wrapping_mul(0x100000001b3);
